@@ -28,6 +28,7 @@ CHUNK = 8
 WEIGHTS = dict(e1.DEFAULT_WEIGHTS)
 WEIGHTS.update({"rand": 0.5, "blocks": 3, "svd": 1.5, "factor_recombine": 1, "swap_gate": 2.5, "ncon": 2, "norm": 0.2, "copy": 1})
 WEIGHTS["copy"] = 0.8
+WEIGHTS["fuse_pair"] = 2.5      # families with mismatched fusion histories: the mask / embedding tables
 
 
 def budget(tier):
